@@ -12,64 +12,115 @@
 (* A plan step is [collect |-> BOOLEAN, part |-> "lo"|"hi"|"whole",        *)
 (*                 take |-> number of bytes returned, pend |-> flag after] *)
 (***************************************************************************)
-EXTENDS Integers, Sequences, SequencesExt, FiniteSets, TLC
+EXTENDS Integers, Sequences, SequencesExt, FiniteSets, FiniteSetsExt, TLC
 
+(* The type annotations are for Apalache (apalache/APA_JitterApi.tla proves the C16 invariants  *)
+(* inductive, i.e. for any number of collections); TLC ignores them.                          *)
+(* @typeAlias: step = {collect: Bool, part: Str, take: Int, pend: Bool};                     *)
+(* @typeAlias: acc = {tok: Int, pend: Bool, handed: Set(<<Int, Str>>), dup: Bool, ntok: Int}; *)
+JitterApi_aliases == TRUE
+
+\* @type: (Int) => $step;
 U64Step(take) == [collect |-> TRUE, part |-> "whole", take |-> take, pend |-> FALSE]
+\* @type: (Bool, Int) => $step;
 U32Step(p, take) == IF p THEN [collect |-> FALSE, part |-> "hi", take |-> take, pend |-> FALSE]
                          ELSE [collect |-> TRUE,  part |-> "lo", take |-> take, pend |-> TRUE]
 
+\* @type: Seq($step);
 PlanU64 == <<U64Step(8)>>
+\* @type: (Bool) => Seq($step);
 PlanU32(p) == <<U32Step(p, 4)>>
 (* fill_bytes(n) = fill_bytes_via_next: n \div 8 next_u64, then one next_u64 (tail 5..7) *)
 (* or one next_u32 (tail 1..4) truncated to the tail                                      *)
+\* @type: (Int, Int) => Seq($step);
+PlanTail(p01, tail) ==
+  IF tail > 4 THEN <<U64Step(tail)>> ELSE IF tail > 0 THEN <<U32Step(p01 = 1, tail)>> ELSE <<>>
+\* @type: (Bool, Int) => Seq($step);
 PlanFill(p, n) ==
   LET q == n \div 8  tail == n % 8
-      whole == TLCEval([i \in 1..q |-> U64Step(8)])
+      \* @type: Seq($step);
+      none == <<>>
+      \* @type: Seq($step);
+      whole == FoldSet(LAMBDA i, acc : Append(acc, U64Step(8)), none, 1..q)
       pAfter == IF q > 0 THEN FALSE ELSE p
-  IN whole \o (IF tail > 4 THEN <<U64Step(tail)>>
-               ELSE IF tail > 0 THEN <<U32Step(pAfter, tail)>> ELSE <<>>)
+  IN whole \o PlanTail(IF pAfter THEN 1 ELSE 0, tail)
+(* the same plan for n < 48 without a variable-length constructor (for Apalache);              *)
+(* MC_JitterApi checks PlanFillB = PlanFill on that range                                      *)
+\* @type: Seq($step);
+Whole5 == <<U64Step(8), U64Step(8), U64Step(8), U64Step(8), U64Step(8)>>
+\* @type: (Bool, Int) => Seq($step);
+PlanFillB(p, n) ==
+  LET q == n \div 8  tail == n % 8
+      pAfter == IF q > 0 THEN FALSE ELSE p
+  IN SubSeq(Whole5, 1, q) \o PlanTail(IF pAfter THEN 1 ELSE 0, tail)
 (* C05 describes fill_bytes(n) as above (so a tail of 1..4 bytes takes a pending half), C16 says *)
 (* fill_bytes discards a pending half and collects afresh.  They differ only for n in 1..4 with *)
 (* a half pending; that corner is left open: both plans are admitted.                           *)
 (* fill_bytes(0) touches no word; whether a pending half survives it is left open as well (C05:     *)
 (* "an immediately following next_u32"): DropStep hands out nothing and clears the flag.           *)
+\* @type: $step;
 DropStep == [collect |-> FALSE, part |-> "drop", take |-> 0, pend |-> FALSE]
-PlanFillSet(p, n) ==
-  IF p /\ n \in 1..4 THEN {PlanFill(p, n), <<U32Step(FALSE, n)>>}
-  ELSE IF p /\ n = 0 THEN {PlanFill(p, n), <<DropStep>>}
-  ELSE {PlanFill(p, n)}
+\* @type: (Bool, Int, Seq($step)) => Set(Seq($step));
+PlanAlternatives(p, n, main) ==
+  LET \* @type: Seq($step);
+      fresh == <<U32Step(FALSE, n)>>
+      \* @type: Seq($step);
+      drop == <<DropStep>>
+  IN IF p /\ n \in 1..4 THEN {main, fresh}
+     ELSE IF p /\ n = 0 THEN {main, drop}
+     ELSE {main}
+\* @type: (Bool, Int) => Set(Seq($step));
+PlanFillSet(p, n) == PlanAlternatives(p, n, PlanFill(p, n))
+\* @type: (Bool, Int) => Set(Seq($step));
+PlanFillSetB(p, n) == PlanAlternatives(p, n, PlanFillB(p, n))
+\* @type: (Bool, Seq($step)) => Bool;
 PendAfter(p, plan) == IF plan = <<>> THEN p ELSE plan[Len(plan)].pend
 ClonePend == FALSE        \* the pending half stays with the original
 
 (***************************************************************************)
 (* The abstract machine                                                    *)
 (***************************************************************************)
-CONSTANTS Inst,        \* instance identifiers, e.g. {1,2,3}
-          MaxTok,      \* bound on collections (state constraint)
-          FillLens,    \* fill_bytes lengths explored
-          CloneCopiesFlag   \* FALSE = the specification; TRUE = the mutation used as a negative test
-VARIABLES alive,       \* set of live instances
-          tok,         \* tok[g]  = token of the value currently in g's data field (0 = none yet)
-          pend,        \* pend[g] = g's pending-half flag
-          handed,      \* set of <<token, part>> handed out so far, by anybody
-          dup,         \* TRUE iff something was handed out twice
-          ntok         \* number of collections performed so far
+CONSTANTS
+  \* @type: Set(Int);
+  Inst,        \* instance identifiers, e.g. {1,2,3}
+  \* @type: Int;
+  MaxTok,      \* bound on collections (state constraint)
+  \* @type: Set(Int);
+  FillLens,    \* fill_bytes lengths explored
+  \* @type: Bool;
+  CloneCopiesFlag   \* FALSE = the specification; TRUE = the mutation used as a negative test
+VARIABLES
+  \* @type: Set(Int);
+  alive,       \* set of live instances
+  \* @type: Int -> Int;
+  tok,         \* tok[g]  = token of the value currently in g's data field (0 = none yet)
+  \* @type: Int -> Bool;
+  pend,        \* pend[g] = g's pending-half flag
+  \* @type: Set(<<Int, Str>>);
+  handed,      \* set of <<token, part>> handed out so far, by anybody
+  \* @type: Bool;
+  dup,         \* TRUE iff something was handed out twice
+  \* @type: Int;
+  ntok         \* number of collections performed so far
 vars == <<alive, tok, pend, handed, dup, ntok>>
 
+\* @type: (Int, Str, Set(<<Int, Str>>)) => Bool;
 Conflicts(t, part, h) ==
   \/ <<t, part>> \in h
   \/ part = "whole" /\ (<<t, "lo">> \in h \/ <<t, "hi">> \in h)
   \/ part \in {"lo", "hi"} /\ <<t, "whole">> \in h
 
 (* run a plan on instance g: acc = [tok, pend, handed, dup, ntok] *)
+\* @type: ($acc, $step) => $acc;
+RunStep(a, s) ==
+  LET t  == IF s.collect THEN a.ntok + 1 ELSE a.tok
+  IN [tok |-> t, pend |-> s.pend,
+      handed |-> IF s.part = "drop" THEN a.handed ELSE a.handed \cup {<<t, s.part>>},
+      dup |-> a.dup \/ (s.part # "drop" /\ (Conflicts(t, s.part, a.handed) \/ t = 0)),
+      ntok |-> IF s.collect THEN a.ntok + 1 ELSE a.ntok]
+\* @type: (Int, Seq($step)) => $acc;
 Run(g, plan) ==
-  FoldLeft(LAMBDA a, s :
-             LET t  == IF s.collect THEN a.ntok + 1 ELSE a.tok
-             IN [tok |-> t, pend |-> s.pend,
-                 handed |-> IF s.part = "drop" THEN a.handed ELSE a.handed \cup {<<t, s.part>>},
-                 dup |-> a.dup \/ (s.part # "drop" /\ (Conflicts(t, s.part, a.handed) \/ t = 0)),
-                 ntok |-> IF s.collect THEN a.ntok + 1 ELSE a.ntok],
-           [tok |-> tok[g], pend |-> pend[g], handed |-> handed, dup |-> dup, ntok |-> ntok], plan)
+  FoldLeft(RunStep, [tok |-> tok[g], pend |-> pend[g], handed |-> handed, dup |-> dup, ntok |-> ntok], plan)
 
 Do(g, plan) ==
   LET r == Run(g, plan) IN
@@ -80,6 +131,7 @@ Do(g, plan) ==
 NextU32(g) == g \in alive /\ Do(g, PlanU32(pend[g]))
 NextU64(g) == g \in alive /\ Do(g, PlanU64)
 Fill(g, n) == g \in alive /\ \E plan \in PlanFillSet(pend[g], n) : Do(g, plan)
+FillB(g, n) == g \in alive /\ \E plan \in PlanFillSetB(pend[g], n) : Do(g, plan)   \* n < 48, see PlanFillB
 Clone(g, h) ==
   /\ g \in alive /\ h \notin alive
   /\ alive' = alive \cup {h}
